@@ -28,6 +28,7 @@ class Contract:
     cls = None         # enclosing class for methods
     properties = ()    # property ids served
     assumptions = ()   # extra unchecked assumptions this contract relies on
+    positional = None      # positional parameter names the contract's apply() binds by position: pinned against the source
 
     def cases(self):
         raise NotImplementedError
@@ -59,7 +60,7 @@ class FunctionReport:
         self.gen_s = 0.0
 
 
-def verify(contract: Contract, registry, repo=None) -> FunctionReport:
+def verify(contract: Contract, registry, repo=None, case_index=None) -> FunctionReport:
     rep = FunctionReport(contract)
     t0 = time.time()
     try:
@@ -70,8 +71,25 @@ def verify(contract: Contract, registry, repo=None) -> FunctionReport:
         return rep
     mod.label_function(fndef)
     rep.source_hash = mod.function_hash(fndef)
+    if contract.positional is not None and case_index in (None, 0):
+        # callers are verified against this contract's parameter order: the real signature must agree
+        from .logic import Obligation, Ctx
+        real = [a.arg for a in (fndef.args.posonlyargs + fndef.args.args)]
+        if contract.cls is not None and real and real[0] in ("self", "cls"):
+            real = real[1:]
+        want = list(contract.positional)
+        c0 = Ctx(contract.name)
+        c0.oblige("signature.positional_parameter_order", z3.BoolVal(real[: len(want)] == want), "signature", fndef.lineno,
+                  f"contract binds positional arguments as {want}; the source declares {real}")
+        rep.obligations.extend(c0.obls)
     try:
-        for case in contract.cases():
+        import os
+        only = os.environ.get("VERIF_CASE")          # developer aid: restrict to cases whose label contains this text
+        for cidx, case in enumerate(contract.cases()):
+            if only and only not in (case.label or ""):
+                continue
+            if case_index is not None and cidx != case_index:
+                continue
             rep.cases += 1
             fname = f"{contract.name}[{case.label}]" if case.label else contract.name
 
@@ -81,12 +99,10 @@ def verify(contract: Contract, registry, repo=None) -> FunctionReport:
                 ex.entry_nhyps = len(ex.ctx.hyps)
                 return env
 
-            outcomes = explore(mod, fndef, registry, make_env, fname, loops=case.loops, owner=contract)
-            feasible = 0
+            outcomes = explore(mod, fndef, registry, make_env, fname, loops=case.loops, owner=contract,
+                               on_outcome=case.check)
             for out in outcomes:
                 rep.paths += 1
-                if out.kind != "end":
-                    case.check(out)
                 rep.obligations.extend(out.ctx.obls)
             # vacuity guard: `False` posed under the entry hypotheses of the case must NOT be provable
             first = outcomes[0]
